@@ -645,8 +645,8 @@ class Output(object):
         if not isinstance(network, Network):
             self.network = Network(network)
         self.value = value_to_satoshi(value, network=network)
-        self.lock_script = b'' if lock_script is None else to_bytes(lock_script)
-        self.public_hash = to_bytes(public_hash)
+        self.lock_script = b'' if lock_script is None else to_bytes_binary(lock_script)
+        self.public_hash = to_bytes_binary(public_hash)
         if isinstance(address, Address):
             self._address = address.address
             self._address_obj = address
@@ -661,7 +661,7 @@ class Output(object):
         else:
             self._address = address
             self._address_obj = None
-        self.public_key = to_bytes(public_key)
+        self.public_key = to_bytes_binary(public_key)
         self.compressed = True
         self.versionbyte = self.network.prefix_address
         self.script_type = script_type
@@ -1947,7 +1947,7 @@ class Transaction(object):
         :return int: Transaction output number (output_n)
         """
 
-        lock_script = to_bytes(lock_script)
+        lock_script = to_bytes_binary(lock_script)
         if output_n is None:
             output_n = len(self.outputs)
         if not float(value).is_integer():
